@@ -137,9 +137,12 @@ def run(ctx):
                 "rename / posix-rename / remove / rmdir / mkdir over 2 names and 2 handles from 4 (quick) / 14 (thorough) initial directories. TRACE: seeded "
                 "histories against the real SFTPUserHandler: 3 names with a seeded initial population (absent, LIT / CHK file, no-write "
                 "link, SDMF / MDMF mutable file by write or read cap, directory, unknown cap), a read-only sub-directory, /uri/<cap> "
-                "paths; open with any subset of the six flags (75% from 16 common combinations); 60% sequential histories, 40% with "
+                "paths; open with any subset of the six flags (85% from 16 common combinations); half of the histories sequential, half with "
                 "overlapping requests about one name (open-for-writing or close not yet answered, then getAttrs / rename / remove / "
-                "re-open). A history is non-trivial if a handle was written and closed, or a rename / remove met an open handle.")
+                "re-open; parked storage calls delivered in fifo or seeded random order); most histories begin with a scripted pattern "
+                "(write-close-reopen-read, close then remove/rename/stat, open then stat/rename/remove, remove/rename under an open "
+                "handle, reads around EOF) and continue as a seeded walk. A history is non-trivial if a handle was written and closed, "
+                "or a rename / remove met an open handle.")
     ctx.assumptions += [
         "TLC and the CommunityModules",
         "one SFTP user, one gateway; storage calls never fail (1 server, 1-of-1)",
@@ -173,7 +176,7 @@ def run(ctx):
         if "SH_CloseCommits" not in r.violated and not os.environ.get("VERIF_SKIP_MC"):
             raise RuntimeError("the model with the code's size rule was not refuted: %s" % r.violated)
 
-    n = 90 if q else 1200
+    n = 120 if q else 1200
     # the two model-checking runs do not depend on the driver of the real code and the trace validation: run them side by side
     ex = ThreadPoolExecutor(max_workers=2)
     futs = [ex.submit(design), ex.submit(design_code_rule)]
